@@ -2,7 +2,7 @@
 # usage: tools_seed_matrix.sh — applies each seeded change to /repo in turn, runs its property's check, reverts; prints which rules fire
 cd /verif
 DIR=${1:-seeded}
-for id in $(ls $DIR); do
+for id in $(ls $DIR | grep "^C[0-9][0-9]$"); do
   if ! git -C /repo apply --check /verif/$DIR/$id/patch.diff 2>/dev/null; then echo "$id PATCH-DOES-NOT-APPLY"; continue; fi
   git -C /repo apply /verif/$DIR/$id/patch.diff
   out=$(./check $id 2>&1); rc=$?
